@@ -30,6 +30,8 @@ type ModelOpts struct {
 	SmallUnits            bool // single packet units mostly
 	NoPtrOnlyFirstChunk   bool // avoid first chunks that hold nothing but pointer_field(+filler) on PAT/PMT PIDs
 	RichAF                bool // adaptation fields with any optional part on any packet of PES units (never the discontinuity flag)
+	Scrambled             bool // packets of some PES PIDs carry transport_scrambling_control 01 / 10 / 11
+	SharedPMTPID          bool // the PAT may list a second program on a PMT PID it already announced
 }
 
 var siPIDs = []struct {
@@ -203,6 +205,10 @@ func RandomModel(r *rand.Rand, o ModelOpts) *Model {
 					}
 					s.Syntax.Data.PAT.Programs = append(s.Syntax.Data.PAT.Programs, &astits.PATProgram{ProgramNumber: uint16(i + 1), ProgramMapID: p})
 				}
+				if o.SharedPMTPID && len(m.PMTs) > 0 && (!split || j == 0) {
+					// two programs whose PMTs travel on one PID (legal, and common in statistical multiplexes)
+					s.Syntax.Data.PAT.Programs = append(s.Syntax.Data.PAT.Programs, &astits.PATProgram{ProgramNumber: uint16(100 + k), ProgramMapID: m.PMTs[(k+j)%len(m.PMTs)]})
+				}
 				if r.IntN(3) == 0 {
 					s.Syntax.Data.PAT.Programs = append(s.Syntax.Data.PAT.Programs, &astits.PATProgram{ProgramNumber: 0, ProgramMapID: 0x10})
 				}
@@ -289,12 +295,17 @@ func RandomModel(r *rand.Rand, o ModelOpts) *Model {
 	for i := 0; i < nPES; i++ {
 		p := pickPID(r, used)
 		nu := 1 + r.IntN(o.MaxUnits)
+		tsc := uint8(0)
+		if o.Scrambled && r.IntN(2) == 0 {
+			tsc = uint8(1 + r.IntN(3))
+		}
 		for k := 0; k < nu; k++ {
 			l := PESLen(r, o.MaxPESLen)
 			if o.SmallUnits {
 				l = 8 + r.IntN(150)
 			}
 			u := NewPESUnit(r, p, serial, PESOpts{DataLen: l, Unbounded: r.IntN(3) == 0, Salt: o.Salt, WithPTS: r.IntN(2) == 0})
+			u.TSC = tsc
 			serial++
 			first, last := 0, 0
 			switch r.IntN(6) {
